@@ -105,7 +105,11 @@ class Gen:
                     ren = "a%d_" % self.n
                     self.n += 1
                     body2, paths2, bf2, leaf2 = _rename(body, sub, ren)
-                    members.append("%s %s;" % (sub.name.split()[0], body2))
+                    # an alignment specifier on the anonymous member itself (not weaker than any member's natural alignment)
+                    al = "_Alignas(%d) " % d(st.sampled_from([64, 128])) if d(st.integers(0, 3)) == 0 else ""
+                    if al:
+                        td.flags.add("anonymous-alignas")
+                    members.append("%s%s %s;" % (al, sub.name.split()[0], body2))
                     td.paths += paths2
                     td.bfpaths += bf2
                     td.leafpaths += leaf2
